@@ -991,3 +991,42 @@ def string_column_units(R, ctx, rid):
     R.ob(rid, w, "unit", ok, "writer counts %s, reader consumes %s" % (sorted(wu), sorted(ru)) if ok else
          "the writer announces lengths in %s but the reader consumes %s: strings with characters outside that agreement are cut" % (sorted(wu), sorted(ru)))
     R.ob(rid, r, "offset", adv == {"bytes"}, "the reader advances its slice offset in %s (must be bytes: it slices a &str)" % sorted(adv))
+
+
+ENCODER_SINKS = [
+    # (function, the calls its `encoder` out-parameter is handed to, in order; every one unconditional)
+    ("yrs::transaction::ReadTxn::encode_state_from_snapshot", [r"Store::encode_state_from_snapshot$"]),
+    ("yrs::transaction::ReadTxn::encode_diff", [r"Store::encode_diff$"]),
+    ("yrs::transaction::ReadTxn::encode_state_as_update", [r"Store::write_blocks_from$", r"IdSet as .*Encode>::encode$"]),
+    ("yrs::transaction::TransactionMut::encode_update", [r"Store::write_blocks_from$", r"IdSet as .*Encode>::encode$"]),
+    ("yrs::store::Store::encode_diff", [r"Store::write_blocks_from$", r"IdSet as .*Encode>::encode$"]),
+]
+
+
+def encoder_sinks(R, ctx, rid):
+    """R-OWN out-parameter: the thin encode entry points write to the caller's encoder through exactly their designated
+    workers — one path, no shortcut that answers from another exporter for some inputs."""
+    Y = ctx.yrs
+    R.rule(rid, "R-OWN encoder out-parameter: ReadTxn::{encode_state_from_snapshot, encode_diff, encode_state_as_update}, "
+                "TransactionMut::encode_update and Store::encode_diff hand their `encoder` to exactly the designated workers "
+                "(blocks first, delete set second where there are two), each on every path; no other call receives it — a "
+                "fast path through a different exporter writes a different document for the inputs it takes")
+    for path, want in ENCODER_SINKS:
+        fn = Y.fn(path)
+        v = FnView(fn)
+        cfg = fn.cfg()
+        got = []
+        for cs in fn.calls():
+            for i in range(len(cs.args)):
+                t = simp_deep(v.arg(cs, i))
+                if t[0] == "param" and fn.local_name(t[1]) == "encoder":
+                    got.append(cs)
+                    break
+        names = [F.strip_generics(c.name) for c in got]
+        ok = len(got) == len(want) and all(re.search(w, n) for w, n in zip(want, names)) \
+            and all(cfg.postdominates(c.bb, 0) for c in got) \
+            and all(cfg.dominates(a.bb, b.bb) for a, b in zip(got, got[1:]))
+        R.ob(rid, fn, "encoder-sinks", ok,
+             "encoder is handed to %s, each on every path" % [n.rsplit("::", 2)[-2] + "::" + n.rsplit("::", 1)[-1] for n in names] if ok else
+             "encoder is handed to %s (expected %s, each unconditional and in this order)" % (names, want),
+             got[0].loc() if got else None)
